@@ -21,7 +21,7 @@ ACCESSORS = {
 
 
 class Mutation:
-    __slots__ = ('view', 'bb', 'kind', 'path', 'field', 'callee', 'cs', 'stmt', 'rv', 'ln', 'mac')
+    __slots__ = ('view', 'bb', 'kind', 'path', 'field', 'callee', 'cs', 'stmt', 'rv', 'ln', 'mac', 'idx')
 
     def __init__(self, view, bb, kind, path, callee=None, cs=None, stmt=None, rv=None, ln=None, mac=''):
         self.view = view
@@ -34,6 +34,11 @@ class Mutation:
         self.rv = rv
         self.ln = ln
         self.mac = mac
+        self.idx = None
+
+    @property
+    def pos(self):
+        return (self.bb, self.idx)
 
     @property
     def method(self):
@@ -110,7 +115,9 @@ def mutations(view, skip_log=True):
         if skip_log and is_log_mac(s.get('mac', '')):
             continue
         pe = view.place_expr(s['lhs'])
-        out.append(Mutation(view, i, 'assign', pe, stmt=s, rv=view.rvalue_expr(s['rv'], i), ln=s['ln'], mac=s.get('mac', '')))
+        mu = Mutation(view, i, 'assign', pe, stmt=s, rv=view.rvalue_expr(s['rv'], i), ln=s['ln'], mac=s.get('mac', ''))
+        mu.idx = j
+        out.append(mu)
     for cs in view.calls(skip_log=skip_log):
         meth = cs.nfn.split('::')[-1]
         for a in cs.args:
@@ -123,7 +130,9 @@ def mutations(view, skip_log=True):
                 kind = 'access'
             else:
                 kind = 'escape'
-            out.append(Mutation(view, cs.bb, kind, b[1], callee=cs.nfn, cs=cs, ln=cs.ln, mac=cs.mac))
+            mu = Mutation(view, cs.bb, kind, b[1], callee=cs.nfn, cs=cs, ln=cs.ln, mac=cs.mac)
+            mu.idx = len(view.blocks[cs.bb]['stmts'])
+            out.append(mu)
     return out
 
 
@@ -361,4 +370,62 @@ def self_fields_read(F, view, depth=2, type_prefix=None, _seen=None):
             if cv.path.split('::')[-1] in ('log_state', 'log_debug', 'log_trace', 'fmt'):
                 continue
             out |= self_fields_read(F, cv, depth - 1, type_prefix, _seen)
+    return out
+
+
+def never_ok_after(view, patterns):
+    """Guard completeness: once the conjunction `patterns` (regexes over edge atoms, evaluated in
+    order as nested/&&-chained tests) holds, no Ok/true return is reachable: the function must fail.
+    Returns (found, ok): found = the conjunction exists as nested edges; ok = every innermost edge
+    reaches only failing exits."""
+    edges = None
+    for pat in patterns:
+        cand = edge_nodes_matching(view, [pat])
+        if edges is None:
+            edges = cand
+        else:
+            edges = [e for e in cand if any(view.dominates(p, e) for p in edges)]
+        if not edges:
+            return False, False
+    good = []
+    for b, e in ret_variants(view):
+        s = show(e)
+        if (e[0] == 'agg' and e[2] == 'Ok') or s == 'True':
+            good.append(b)
+    ok = True
+    for en in edges:
+        r = view.reach([en])
+        if any(b in r for b in good):
+            ok = False
+    return True, ok
+
+
+def rets_after(view, patterns):
+    """Renderings of every return value reachable once the conjunction `patterns` holds (nested /
+    &&-chained edges, each dominated by the previous).  None when the conjunction does not occur.
+    Used for guard *completeness*: an extra conjunct that weakens a rejection shows up as an
+    additional reachable outcome."""
+    edges = None
+    for pat in patterns:
+        cand = edge_nodes_matching(view, [pat])
+        if edges is None:
+            edges = cand
+        else:
+            edges = [e for e in cand if any(view.dominates(p, e) for p in edges)]
+        if not edges:
+            return None
+    out = set()
+    rv = ret_variants(view)
+    for en in edges:
+        r = view.reach([en])
+        for b, e in rv:
+            if b in r:
+                if e[0] == 'agg' and e[2] in ('Ok', 'Err', 'Some', 'None'):
+                    out.add(e[2])
+                else:
+                    out.add(show(e))
+        # `?`-forwarded errors
+        for cs in view.calls('FromResidual::from_residual', 'from_residual'):
+            if cs.dest['l'] == 0 and cs.bb in r:
+                out.add('Err')
     return out
